@@ -609,7 +609,7 @@ let predict_set (f : string list) (obs : string) : string * string * bool =
 
 
 (* ---------- ovl cases: config structs with map / slice / nested-struct fields (Model/RegistryOverlay.v) ---------- *)
-type tr = TNull | TNum of int | TMap of (string * tr) list | TSub of (string * tr) list | TList of tr list
+type tr = TNull | TNum of int | TMap of (string * tr) list | TSub of (string * tr) list | TList of tr list | TPtr of (string * tr) list option
 
 let intern_tbl : (string, int) Hashtbl.t = Hashtbl.create 64
 let intern_names : (int, string) Hashtbl.t = Hashtbl.create 64
@@ -633,6 +633,8 @@ let rec p_tree (s : string) : tr =
   let len = String.length s in
   if s = "~" then TNull
   else if len = 0 then raise (Unparsable "empty value")
+  else if s = "&nil" then TPtr None
+  else if s.[0] = '&' then (match p_tree (String.sub s 1 (len - 1)) with TSub kv -> TPtr (Some kv) | _ -> raise (Unparsable ("pointer " ^ s)))
   else if (s.[0] = '{' && s.[len - 1] = '}') || (s.[0] = '(' && s.[len - 1] = ')') then begin
     let inner = String.sub s 1 (len - 2) in
     let kvs = if inner = "" then [] else List.map p_kv (String.split_on_char ';' inner) in
@@ -658,6 +660,8 @@ let fval_of (zero : bool) (bump : int) (t : tr) : fval =
   | TMap kv -> FMap (if zero then [] else List.map (fun (k, v) -> (intern k, nn (t_num v))) kv)
   | TList l -> FList (if zero then [] else List.map (fun v -> nn (t_num v)) l)
   | TSub kv -> FSub (List.map (fun (k, v) -> (intern k, nn (t_num v))) kv)
+  | TPtr (Some kv) -> FPtr (zero, List.map (fun (k, v) -> (intern k, nn (t_num v))) kv)
+  | TPtr None -> FPtr (true, [])
   | TNull -> raise (Unparsable "nil in a config")
 let uval_of (t : tr) : uval =
   match t with
@@ -665,7 +669,7 @@ let uval_of (t : tr) : uval =
   | TNum i -> UNum (n_of_int i)
   | TMap kv -> UMap (List.map (fun (k, v) -> (intern k, (match v with TNull -> None | v -> Some (n_of_int (t_num v))))) kv)
   | TList l -> UList (List.map (fun v -> n_of_int (t_num v)) l)
-  | TSub _ -> raise (Unparsable "struct in a section")
+  | TSub _ | TPtr _ -> raise (Unparsable "struct in a section")
 let s_amap (sorted : bool) (m : (n * n) list) : string =
   let l = List.map (fun (k, v) -> (name_of k, string_of_n v)) m in
   let l = if sorted then List.sort compare l else l in
@@ -675,6 +679,8 @@ let s_fval = function
   | FMap m -> "{" ^ s_amap true m ^ "}"
   | FList l -> "[" ^ String.concat ";" (List.map string_of_n l) ^ "]"
   | FSub m -> "(" ^ s_amap false m ^ ")"
+  | FPtr (true, _) -> "&nil"
+  | FPtr (false, m) -> "&(" ^ s_amap false m ^ ")"
 let s_cfg (c : (n * fval) list) : string = String.concat "," (List.map (fun (k, v) -> name_of k ^ "=" ^ s_fval v) c)
 let p_cfg (s : string) : (n * fval) list = List.map (fun (k, t) -> (intern k, fval_of false 0 t)) (p_fields s)
 
